@@ -10,7 +10,7 @@ from . import c06 as C06
 
 PROPS = "theories/Props/C10.v"
 MODULE = "Props.C10"
-SUPPORT = ["theories/Proofs/CmpP.v", "theories/Proofs/QuantityP.v", "theories/Proofs/MixedP.v", "theories/Proofs/ExactP.v"]
+SUPPORT = ["theories/Proofs/CmpP.v", "theories/Proofs/QuantityP.v", "theories/Proofs/MixedP.v", "theories/Proofs/ExactP.v", "theories/Proofs/Tree.v", "theories/Proofs/ErrBound.v"]
 
 SAME_TYPES = ["f64", "f32", "i32", "i64", "u64", "bigint", "rational64", "bigrational"]
 SAME_BASES = ["si", "kgh"]
